@@ -2,7 +2,7 @@ HOOKS = {
     "guard": "unic_locale_verif",
     "enable": "RUSTFLAGS='--cfg unic_locale_verif' (set by tools/check.py for every Kani and native-replay build of /repo's crates)",
     "baseline_off_cmd": "cd /repo && cargo test --workspace --no-fail-fast --offline",
-    "source_commits": [],
+    "source_commits": ["68869d5", "ab38439", "4d0aab9"],
     "add_only": True,
 }
 
